@@ -72,7 +72,7 @@ func LCCFwd(el Ell, lat1, lat2, lat0, lon0, lon, lat float64) (float64, float64)
 	F := m1 / (n * math.Pow(t1, n))
 	rho := el.A * F * math.Pow(t, n)
 	rho0 := el.A * F * math.Pow(t0, n)
-	th := n * (lon - lon0)
+	th := n * wrapPi(lon-lon0)
 	return rho * math.Sin(th), rho0 - rho*math.Cos(th)
 }
 
@@ -89,7 +89,7 @@ func AEAFwd(el Ell, lat1, lat2, lat0, lon0, lon, lat float64) (float64, float64)
 	C := m1*m1 + n*q1
 	rho := el.A * math.Sqrt(C-n*q) / n
 	rho0 := el.A * math.Sqrt(C-n*q0) / n
-	th := n * (lon - lon0)
+	th := n * wrapPi(lon-lon0)
 	return rho * math.Sin(th), rho0 - rho*math.Cos(th)
 }
 
@@ -105,7 +105,7 @@ func EQDCFwd(el Ell, lat1, lat2, lat0, lon0, lon, lat float64) (float64, float64
 	G := m1/n + M1/el.A
 	rho := el.A*G - M
 	rho0 := el.A*G - M0
-	th := n * (lon - lon0)
+	th := n * wrapPi(lon-lon0)
 	return rho * math.Sin(th), rho0 - rho*math.Cos(th)
 }
 
@@ -185,4 +185,15 @@ func HelmertToWGS84(p []float64, X, Y, Z float64) (float64, float64, float64) {
 	const s2r = math.Pi / 180 / 3600
 	rx, ry, rz, m := p[3]*s2r, p[4]*s2r, p[5]*s2r, 1+p[6]*1e-6
 	return m*(X-rz*Y+ry*Z) + p[0], m*(rz*X+Y-rx*Z) + p[1], m*(-ry*X+rx*Y+Z) + p[2]
+}
+
+// wrapPi brings a longitude difference into (-pi, pi].
+func wrapPi(d float64) float64 {
+	for d > math.Pi {
+		d -= 2 * math.Pi
+	}
+	for d <= -math.Pi {
+		d += 2 * math.Pi
+	}
+	return d
 }
